@@ -77,16 +77,13 @@ def hits(ctx, trace):
     return h
 
 
-def drive_and_judge(ctx, scs, sweep=0, variants="rotate"):
+def drive_and_judge(ctx, scs, sweep=0, variants="rotate", shards=1):
     by_id = {s["id"]: s for s in scs}
-    sp = ctx.write_scenarios(scs)
     binp = ctx.go_build("./drivers/comprev")
-    trace = os.path.join(ctx.work, "trace.ndjson")
-    summ = os.path.join(ctx.work, "summary.json")
-    ctx.run([binp, "-scenarios", sp, "-trace", trace, "-summary", summ, "-sweep", str(sweep), "-variants", variants,
-             "-chunk", "150000", "-seed", str(ctx.seed)])
-    with open(summ) as f:
-        s = json.load(f)
+    shards = max(1, min(shards, len(scs)))
+    # -sweep is per shard: the first n scenarios of every shard are swept
+    trace, s = ctx.run_sharded(binp, scs, ["-sweep", str((sweep + shards - 1) // shards), "-variants", variants,
+                                           "-chunk", "150000", "-seed", str(ctx.seed)], shards=shards)
     viols, nlines = ctx.monitor("MonCompRev", trace)
     for formula, line, scid in viols:
         if scid in by_id and ("variant" in by_id[scid] or "sweep" in by_id[scid] or "extra" in by_id[scid]):
@@ -129,7 +126,7 @@ def run(ctx):
 
     # (M)+(G) scenario generation from the model of the code as it is (FIX_LATEST)
     cfgs = ["MCCompRev_quick.cfg"] if quick else ["MCCompRev_thorough.cfg", "MCCompRev_mid.cfg"]
-    budget = 2000 if quick else 60000
+    budget = 3000 if quick else 80000
     scs = []
     for i, cfg in enumerate(cfgs):
         mc = ctx.model_check("MCCompRev", cfg, workers=8 if quick else 16, timeout=300 if quick else 3000, env=env)
@@ -139,7 +136,8 @@ def run(ctx):
         emitted += mc["emitted"]
         consts[cfg] = dict(states=mc["states"], transitions=mc["transitions"], depth=mc["depth"], scenarios=mc["emitted"], FixLatest=FIX_LATEST)
     chosen = regression() + scs
-    s, nlines = drive_and_judge(ctx, chosen, sweep=10 if quick else 150, variants="rotate" if quick else "all")
+    s, nlines = drive_and_judge(ctx, chosen, sweep=12 if quick else 160, variants="rotate" if quick else "all",
+                                shards=4 if quick else 8)
     ctx.cov.update(dict(
         states=states, transitions=trans, traces_validated_against_impl=s["runs"],
         samples=s["samples"][:2], model_runs=consts, scenarios_emitted=emitted, scenarios_replayed=s["scenarios"],
